@@ -31,7 +31,7 @@ def cases(draw, exclude: frozenset = frozenset()):
 	gname = rnd.choice(['pair', 'chain', 'chain', 'diamond', 'chain4'])
 	graph = P.GRAPHS[gname]
 	mods = sorted(graph)
-	pkg = {m: rnd.choice(['srca', 'srcb']) for m in mods}
+	pkg = {m: rnd.choice(['srca', 'srcb', 'srca', 'srcb', 'srca/deep', 'srcb/srcb', 'srcb/my_srcb', 'other']) for m in mods}  # the prefix text occurs again inside some paths
 	ops = []
 	for _ in range(rnd.randint(3, 9)):
 		k = rnd.choice(['edit', 'edit', 'run', 'run', 'run', 'run_f', 'delete_output', 'corrupt_header'])
@@ -49,9 +49,11 @@ def cases(draw, exclude: frozenset = frozenset()):
 
 def expected_path(pkg: str, m: str) -> str:
 	"""Reference model of Runner.fetch_output_path for output_dirs = ['srca/*:outA', 'srcb/:outB', 'out/']."""
-	if pkg == 'srca':
-		return f'outA/srca/{m}.h'
-	return f'outB/{m}.h'
+	if pkg == 'srca' or pkg.startswith('srca/'):
+		return f'outA/{pkg}/{m}.h'       # glob rule: the whole input path below the output directory
+	if pkg == 'srcb' or pkg.startswith('srcb/'):
+		return f'outB/{pkg[len("srcb/"):] + "/" if pkg != "srcb" else ""}{m}.h'   # prefix rule: only the *leading* prefix is replaced
+	return f'out/{pkg}/{m}.h'            # fallback entry
 
 
 def judge(scratch: str, case: dict) -> tuple[list[tuple[str, str]], dict]:
